@@ -24,4 +24,4 @@ CLAIMED: dict[str, dict] = {
 NOT_YET = "check not built yet in this session (work in progress; see DESIGN.md section 9 build order)"
 
 # properties whose check has been integrated, run on the unchanged tree and reviewed by the lead
-READY = ["C01", "C02", "C03", "C04", "C05", "C06", "C07", "C08", "C09", "C11", "C12", "C13", "C14", "C15", "C16", "C17", "C18", "C19", "C20"]
+READY = ["C01", "C02", "C03", "C04", "C05", "C06", "C07", "C08", "C09", "C10", "C11", "C12", "C13", "C14", "C15", "C16", "C17", "C18", "C19", "C20"]
